@@ -266,6 +266,11 @@ impl Ctx {
 
     /// Reports a violation. Only the first case of each signature is written out in full.
     pub fn violation(&mut self, sig: &str, case: Value, detail: Value) {
+        // Monitor mode (C08) reports out-of-bounds outcomes only, whoever raises the violation.
+        if self.monitor && !(sig.ends_with("/panic(oob)") || sig.ends_with("/oob")) {
+            self.ignored_in_monitor += 1;
+            return;
+        }
         let n = self.viol_sigs.entry(sig.to_string()).or_insert(0);
         *n += 1;
         if *n == 1 {
